@@ -527,13 +527,15 @@ class Item:
             body = ''
         return body, vals
 
-    def value(self, r, args, depth=0):
+    def value(self, r, args, depth=0, force_pos=None):
         env = dict(zip(self.params, args))
         ty_args = (["'static"] if self.lifetime else []) + [a.rust() for a in args]
         turbofish = ''   # the type annotation at the use site drives inference (lifetime arguments are not allowed on variant paths)
         if self.is_enum:
             live = [(i, v) for i, v in enumerate([v for v in self.variants if not v.skip])]
             pos, v = r.choice(live)
+            if force_pos is not None and depth == 0:
+                pos, v = live[force_pos % len(live)]
             body, vals = self.fields_value(r, v.shape, v.fields, env, depth)
             idx = v.index if v.index is not None else (v.disc if v.disc is not None else pos)
             return (f'{self.path_text()}{turbofish}::{v.ident}{body}',
@@ -790,9 +792,13 @@ def main():
         vals = []
         if it.has_values():
             seenv = set()
-            for _ in range(a.vals):
+            # an enum of up to 12 encodable variants gets one value per variant (then random ones), so that every described
+            # index is compared with the byte the codec writes
+            nlive = len([v for v in it.variants if not v.skip]) if it.is_enum else 0
+            rounds = max(a.vals, nlive if nlive <= 12 else a.vals)
+            for vi in range(rounds):
                 try:
-                    e, v = it.value(r, args)
+                    e, v = it.value(r, args, force_pos=(vi if (it.is_enum and vi < nlive and nlive <= 12) else None))
                 except (IndexError, ValueError, RecursionError):
                     continue   # no value can be written for this instantiation (e.g. an uninhabited member type)
                 if v not in seenv:
